@@ -5,5 +5,5 @@ open Drv_core
 
 let run (kind : string) (toks : string list) : string option =
   match kind with
-  | "ECHO" -> Some (String.concat " " toks)
+  | "ECHO" -> Some (Stdlib.String.concat " " toks)
   | _ -> None
